@@ -519,6 +519,23 @@ class Inliner:
                     return self._expand_collect(s, tgt, r[0], r[1], root)
                 except _NoInline as e:
                     self.log.append(f"{f.key}: {r[0].key} (generator in list()) not inlined: {e}")
+        if isinstance(s, ast.Expr) and isinstance(s.value, ast.Call) and isinstance(s.value.func, ast.Attribute) and s.value.func.attr == "writelines" \
+                and len(s.value.args) == 1 and not s.value.keywords and isinstance(s.value.args[0], ast.Call):
+            # `out.writelines(helper(args))` with helper a private generator == `for line in helper(args): out.write(line)`
+            r = self._resolve(s.value.args[0], f, generator=True, root=root)
+            if r is not None:
+                self.counter += 1
+                tmp = f"_line__w{self.counter}"
+                wr = ast.Expr(ast.Call(ast.Attribute(s.value.func.value, "write", ast.Load()), [ast.Name(tmp, ast.Load())], []))
+                synth = ast.For(ast.Name(tmp, ast.Store()), s.value.args[0], [wr], [], None)
+                for n_ in ast.walk(synth):
+                    if not hasattr(n_, "lineno"):
+                        ast.copy_location(n_, s)
+                ast.copy_location(synth, s)
+                try:
+                    return self._expand_for(synth, r[0], r[1], root, substitute=True)
+                except _NoInline as e:
+                    self.log.append(f"{f.key}: {r[0].key} (generator in writelines) not inlined: {e}")
         if isinstance(s, ast.Assign) and isinstance(s.value, ast.IfExp):
             # `x = helper(..) if T else B`: a helper call in a branch of a conditional expression is conditionally evaluated;
             # as an if / else statement it becomes an ordinary statement that can be expanded
@@ -735,13 +752,20 @@ class Inliner:
         rewrite(body)
         return n[0]
 
-    def _expand_for(self, s, callee, recv, root):
+    def _expand_for(self, s, callee, recv, root, substitute=False):
         for n in _walk_loop_body(s):
             if isinstance(n, (ast.Break, ast.Continue)):
                 raise _NoInline("the consuming loop uses break / continue")
         pre, body = self._bind(s.iter, callee, recv, root, {x.id for x in ast.walk(s.target) if isinstance(x, ast.Name)})
 
         def make(v, at):
+            if substitute and isinstance(s.target, ast.Name):
+                # synthetic consumer with one use of the loop variable: put the yielded value there
+                class S(ast.NodeTransformer):
+                    def visit_Name(self, n):
+                        return copy.deepcopy(v) if n.id == s.target.id and isinstance(n.ctx, ast.Load) else n
+
+                return [ast.copy_location(S().visit(copy.deepcopy(b)), at) for b in s.body]
             return [ast.copy_location(ast.Assign([copy.deepcopy(s.target)], v), at)] + copy.deepcopy(list(s.body))
 
         k = self._replace_yields(body, make)
